@@ -56,6 +56,7 @@ func judgeC25(c c25Case) []Violation {
 		if err := wl.srv.NFS.UpdatePolicyOptions(absnfs.PolicyOptions{MaxFileSize: c.Max, Squash: "none"}); err != nil {
 			return nil
 		}
+		wl.tr(fmt.Sprintf("srv maxfile %d", c.Max), "ok")
 	}
 	// the unlimited twin runs on its own backend
 	free := c.Base
@@ -178,6 +179,11 @@ func min64(a, b int64) int64 {
 }
 
 func checkC25(r *Result, rng *rand.Rand, thorough bool) {
+	traces, doneTraces := collectTraces(200)
+	defer func() {
+		doneTraces()
+		compareSrv(r, "srv", *traces)
+	}()
 	ncases, n := 300, 12
 	if thorough {
 		ncases, n = 3000, 25
